@@ -1,6 +1,8 @@
 (* Proofs/SrvData.v — READ / WRITE / SETATTR(size) / CREATE of the server model (Model/Srv.v) against the
    byte-array specification of Proofs/BackendData.v (property C01), and the MaxFileSize guard (C25).
-   Every lemma is for all server states: any tree, any cache contents and configuration, any handle table. *)
+   Every lemma is for all server states: any tree, any cache contents and configuration, any handle table.
+   Sections: 1 frame of GetAttr; 2 READ; 3 WRITE; 4 SETATTR(size); 5 MaxFileSize (FBIG, bound, simulation);
+   6 CREATE of a new name; 7 the same at the level of [step]; 8 histories (refinement of the byte-array spec). *)
 From Coq Require Import List NArith ZArith Bool Lia ZifyBool ZifyNat ZifyN.
 From Verif Require Import Gen.Facts Model.Handles Model.Backend Model.Srv Proofs.SrvRO Proofs.BackendData.
 Import ListNotations.
@@ -639,11 +641,18 @@ Proof.
   unfold ac_find, ac_remove. induction l as [|a l IH]; cbn [filter find]; [reflexivity|].
   destruct (path_eqb p (ac_path a)) eqn:E; cbn [negb find]; [exact IH|rewrite E; exact IH].
 Qed.
+Lemma ac_find_filter_none f l p : ac_find l p = None -> ac_find (filter f l) p = None.
+Proof.
+  unfold ac_find. induction l as [|a l IH]; cbn [filter find]; [reflexivity|].
+  destruct (path_eqb p (ac_path a)) eqn:E; [discriminate|]. intros H.
+  destruct (f a); cbn [find]; [rewrite E|]; apply IH, H.
+Qed.
 Lemma invalidate_for_new_fr s d p : Fr s (invalidate_for_new s d p) /\ ac_find (ac (invalidate_for_new s d p)) p = None.
 Proof.
   unfold invalidate_for_new, dc_invalidate.
-  match goal with |- context [if ?c then _ else _] => destruct c end; cbn [ac with_dc ac_invalidate with_ac];
-  (split; [unfold Fr; cbn; tauto|apply ac_find_remove]).
+  match goal with |- context [if ?c then _ else _] => destruct c end;
+  cbn [ac with_dc ac_invalidate ac_invalidate_tree with_ac];
+  (split; [unfold Fr; cbn; tauto|apply ac_find_filter_none, ac_find_remove]).
 Qed.
 (* Lookup right after the invalidation: an Lstat *)
 Lemma srv_lookup_miss s p : ac_find (ac s) p = None ->
@@ -811,4 +820,352 @@ Proof.
   destruct (fs_get (fs (fst (handle_setattr s c h sa guard))) p) as [o'|].
   - destruct H as (o & A & _). rewrite A. split; discriminate.
   - rewrite H. tauto.
+Qed.
+
+(* ====================================================================================================== *)
+(* 8. histories of READ / WRITE / SETATTR(size): the model refines the byte-array specification           *)
+(* ====================================================================================================== *)
+(* what these three procedures keep: the handle table, the configuration, the clock; nodes are only updated *)
+Definition Keep (s s' : srv) : Prop :=
+  hm s' = hm s /\ conf s' = conf s /\ now s' = now s /\ (forall h, node_get s h <> None -> node_get s' h <> None).
+Lemma Keep_refl s : Keep s s. Proof. unfold Keep; auto. Qed.
+Lemma Keep_trans a b c : Keep a b -> Keep b c -> Keep a c.
+Proof. unfold Keep. intros (A1 & A2 & A3 & A4) (B1 & B2 & B3 & B4). splits; try congruence. auto. Qed.
+Lemma Keep_Fr a b : Fr a b -> Keep a b.
+Proof. intros (_ & A & B & C & D & _). unfold Keep. splits; auto. intros h. unfold node_get. rewrite C. auto. Qed.
+Lemma Keep_same a b : hm b = hm a -> conf b = conf a -> now b = now a -> nodes b = nodes a -> Keep a b.
+Proof. intros A B C D. unfold Keep. splits; auto. intros h. unfold node_get. rewrite D. auto. Qed.
+Lemma Keep_node_set s h a : Keep s (node_set s h a).
+Proof.
+  unfold Keep. splits; try reflexivity. intros h' H. unfold node_get, node_set in *. cbn [nodes with_nodes find fst].
+  destruct (h =? h') eqn:E; [discriminate|]. cbn [snd].
+  destruct (find (fun e => fst e =? h') (nodes s)) as [e|] eqn:F; [|congruence].
+  assert (G : find (fun e => fst e =? h') (filter (fun e => negb (fst e =? h)) (nodes s)) = Some e); [|rewrite G; discriminate].
+  clear H. induction (nodes s) as [|x l IH]; [discriminate|]. cbn [find filter] in *.
+  destruct (fst x =? h') eqn:X.
+  - injection F as ->. replace (fst e =? h) with false by lia. cbn [negb find]. rewrite X. reflexivity.
+  - destruct (negb (fst x =? h)); cbn [find]; rewrite ?X; apply IH; exact F.
+Qed.
+Lemma Keep_node_upd s h f : Keep s (node_upd s h f).
+Proof. unfold node_upd. destruct (node_get s h); [apply Keep_node_set|apply Keep_refl]. Qed.
+Lemma srv_setattr_keep s h p cur new : Keep s (fst (srv_setattr s h p cur new)).
+Proof.
+  unfold srv_setattr, do_stat. destruct (be_stat (fs s) p true) as [fi|e]; [|apply Keep_same; reflexivity].
+  cbv zeta. set (s1 := logc s (bc BStat p)).
+  assert (K1 : Keep s s1) by (apply Keep_same; reflexivity).
+  set (r2 := if na_perm new =? na_perm cur then (s1, Ok tt) else lift_unit s1 _ _).
+  assert (U2 : Keep s (fst r2)).
+  { subst r2. destruct (na_perm new =? na_perm cur); [exact K1|]. eapply Keep_trans; [exact K1|apply Keep_same; reflexivity]. }
+  clearbody r2. destruct r2 as [s2 [u|e]]; cbn [fst snd] in *; [|exact U2].
+  set (r3 := if (na_uid new =? na_uid cur) && (na_gid new =? na_gid cur) then (s2, Ok tt) else lift_unit s2 _ _).
+  assert (U3 : Keep s (fst r3)).
+  { subst r3. destruct ((na_uid new =? na_uid cur) && (na_gid new =? na_gid cur)); [exact U2|].
+    eapply Keep_trans; [exact U2|apply Keep_same; reflexivity]. }
+  clearbody r3. destruct r3 as [s3 [u3|e]]; cbn [fst snd] in *; [|exact U3].
+  match goal with |- context [if ?c then lift_unit s3 ?a ?b else (s3, Ok tt)] =>
+    set (r4 := if c then lift_unit s3 a b else (s3, Ok tt)) end.
+  assert (U4 : Keep s (fst r4)).
+  { subst r4. match goal with |- context [if ?c then _ else (s3, Ok tt)] => destruct c end; [|exact U3].
+    eapply Keep_trans; [exact U3|apply Keep_same; reflexivity]. }
+  clearbody r4. destruct r4 as [s4 [u4|e]]; cbn [fst snd] in *; [|exact U4].
+  eapply Keep_trans; [exact U4|]. eapply Keep_trans; [apply Keep_node_set|apply Keep_same; reflexivity].
+Qed.
+
+Lemma handle_read_keep s h off cnt : Keep s (fst (handle_read s h off cnt)).
+Proof.
+  unfold handle_read.
+  destruct (two64 - 1 - cnt <? off); [apply Keep_refl|].
+  destruct (lookup_node s h) as [[p na]|]; [|apply Keep_refl].
+  destruct (two63N <=? off); [apply Keep_refl|].
+  set (s1 := logc s (bc BOpenR p)). assert (K1 : Keep s s1) by (apply Keep_same; reflexivity).
+  destruct (be_open (fs s1) p false) as [q|e]; [|exact K1].
+  destruct (fs_get (fs s1) q) as [o|]; [|exact K1].
+  match goal with |- context [match snd ?x with Ok _ => _ | Err _ => _ end] => set (r := x) end.
+  assert (Kr : Keep s (fst r)).
+  { subst r. destruct (stat_size o <=? off); [exact K1|]. eapply Keep_trans; [exact K1|apply Keep_same; reflexivity]. }
+  clearbody r. destruct r as [s2 [dat|e]]; cbn [fst snd] in *; [|exact Kr].
+  ga s3 x F V. apply Keep_Fr in F. destruct x; cbn [fst]; eapply Keep_trans; eassumption.
+Qed.
+
+Lemma handle_write_keep s h off cnt stable data : Keep s (fst (handle_write s h off cnt stable data)).
+Proof.
+  unfold handle_write.
+  destruct (ro (conf s)); [apply Keep_refl|].
+  destruct (two64 - 1 - cnt <? off); [apply Keep_refl|].
+  destruct (negb (cnt =? N.of_nat (length data))); [apply Keep_refl|].
+  destruct (tsize (conf s) <? cnt); [apply Keep_refl|].
+  match goal with |- context [if ?c then (s, fail_wcc NFSERR_FBIG) else _] => destruct c end; [apply Keep_refl|].
+  destruct (lookup_node s h) as [[p na]|]; [|apply Keep_refl].
+  ga s1 pre F1 V1. apply Keep_Fr in F1. destruct pre as [prea|e]; [|exact F1].
+  destruct (two63N <=? off).
+  { ga s2 post F2 V2. apply Keep_Fr in F2. cbn [fst]. eapply Keep_trans; eassumption. }
+  set (s2 := logc s1 (bc BOpenW p)). assert (K2 : Keep s s2) by (eapply Keep_trans; [exact F1|apply Keep_same; reflexivity]).
+  destruct (be_open (fs s2) p true) as [q|e].
+  2:{ ga s3 post F3 V3. apply Keep_Fr in F3. cbn [fst]. eapply Keep_trans; eassumption. }
+  cbv zeta.
+  match goal with |- context [logc (with_fs s2 ?f) ?c] => set (s3 := logc (with_fs s2 f) c) end.
+  assert (K3 : Keep s s3) by (eapply Keep_trans; [exact K2|apply Keep_same; reflexivity]).
+  match goal with |- context [match snd ?w with Ok _ => _ | Err _ => _ end] => destruct (snd w) as [n|e] end.
+  2:{ ga s4 post F4 V4. apply Keep_Fr in F4. cbn [fst]. eapply Keep_trans; eassumption. }
+  unfold do_stat. cbn [fst snd lift_unit].
+  match goal with |- context [getattr_h ?X h p] => assert (K8 : Keep s X) end.
+  { match goal with |- context [match ?sti with Ok _ => node_upd ?Y _ _ | Err _ => _ end] =>
+      assert (KY : Keep s Y) by (eapply Keep_trans; [exact K3|apply Keep_same; reflexivity]); destruct sti end;
+    [eapply Keep_trans; [exact KY|apply Keep_node_upd]|exact KY]. }
+  ga s9 post F9 V9. apply Keep_Fr in F9. destruct post; cbn [fst]; eapply Keep_trans; eassumption.
+Qed.
+
+Lemma handle_setattr_keep s c h sa guard : Keep s (fst (handle_setattr s c h sa guard)).
+Proof.
+  unfold handle_setattr.
+  destruct (ro (conf s)); [apply Keep_refl|].
+  destruct (match s_mode sa with Some m => N.testbit m 15 | None => false end); [apply Keep_refl|].
+  destruct (lookup_node s h) as [[p na]|]; [|apply Keep_refl].
+  ga s1 pre F1 V1. apply Keep_Fr in F1. destruct pre as [prea|e]; [|exact F1].
+  match goal with |- context [if ?c then (s1, fail_wcc NFSERR_NOT_SYNC) else _] => destruct c end; [exact F1|].
+  match goal with |- context [match snd ?x with Some _ => _ | None => _ end] => set (rs := x) end.
+  assert (U : Keep s (fst rs)).
+  { subst rs. destruct (s_size sa) as [sz|]; [|exact F1].
+    destruct (two63N <=? sz); [exact F1|].
+    match goal with |- context [if ?c then (s1, Some NFSERR_FBIG) else _] => destruct c end; [exact F1|].
+    match goal with |- context [match snd ?r with Ok _ => _ | Err _ => _ end] =>
+      assert (Kr : Keep s (fst r)) by (eapply Keep_trans; [exact F1|apply Keep_same; reflexivity]); destruct (snd r) end;
+    [|exact Kr].
+    unfold do_stat. cbn [fst snd].
+    match goal with |- context [match ?sti with Ok _ => node_upd ?Y _ _ | Err _ => _ end] =>
+      assert (KY : Keep s Y) by (eapply Keep_trans; [exact Kr|apply Keep_same; reflexivity]); destruct sti end;
+    [eapply Keep_trans; [exact KY|apply Keep_node_upd]|exact KY]. }
+  clearbody rs. destruct rs as [s4 [e|]]; cbn [fst snd] in *; [exact U|].
+  destruct (node_get s4 h) as [cur|]; [|exact U].
+  match goal with |- context [srv_setattr s4 h p cur ?new] =>
+    pose proof (srv_setattr_keep s4 h p cur new) as S5; destruct (srv_setattr s4 h p cur new) as [s5 [u|e]] end;
+    cbn [fst] in *.
+  - ga s6 post F6 V6. apply Keep_Fr in F6.
+    apply Keep_trans with s4; [exact U|]. apply Keep_trans with s5; [exact S5|]. destruct post; exact F6.
+  - apply Keep_trans with s4; [exact U|exact S5].
+Qed.
+
+(* ---------- the abstraction ---------- *)
+(* the byte-array state: the files the history is about, by path *)
+Definition sfiles := path -> option bfile.
+Definition supd (m : sfiles) (p : path) (f : bfile) : sfiles := fun q => if path_eqb q p then Some f else m q.
+(* every file of the specification state is a plain regular file of the tree with the same size and bytes *)
+Definition Abs (s : srv) (m : sfiles) : Prop :=
+  forall p f, m p = Some f -> exists o, plain_file (fs s) p o /\ bf_eq (file_of o) f.
+(* every handle has its node; no duplicate keys; writable; no size limit *)
+Definition Good (s : srv) : Prop :=
+  nodup_keys (fs s) /\ ro (conf s) = false /\ maxfile (conf s) = 0 /\
+  (forall h, get (hm s) h <> None -> node_get s h <> None).
+
+Lemma Good_keep s s' : Good s -> Keep s s' -> nodup_keys (fs s') -> Good s'.
+Proof.
+  intros (A & B & C & D) (K1 & K2 & K3 & K4) N. unfold Good. rewrite K1, K2. splits; auto.
+Qed.
+Lemma lookup_node_good s h p : Good s -> get (hm s) h = Some p -> exists na, lookup_node s h = Some (p, na).
+Proof.
+  intros (_ & _ & _ & G) H. unfold lookup_node. rewrite H.
+  destruct (node_get s h) as [na|] eqn:E; [eauto|]. exfalso. apply (G h); congruence.
+Qed.
+
+(* the data requests and their specification *)
+Inductive dreq := DRead (h off cnt : N) | DWrite (h off stable : N) (data : list N) | DTrunc (h sz : N).
+Definition size_sattr (sz : N) : sattr :=
+  {| s_mode := None; s_uid := None; s_gid := None; s_size := Some sz; s_atime := 0; s_atime_v := 0; s_mtime := 0; s_mtime_v := 0 |}.
+Definition req_of (d : dreq) : req :=
+  match d with
+  | DRead h off cnt => RRead h off cnt
+  | DWrite h off st data => RWrite h off (N.of_nat (length data)) st data
+  | DTrunc h sz => RSetattr h (size_sattr sz) None
+  end.
+Definition dreq_handle (d : dreq) : N := match d with DRead h _ _ | DWrite h _ _ _ | DTrunc h _ => h end.
+(* the inputs the specification covers (the others are the *_guard lemmas) *)
+Definition dreq_valid (ts : N) (d : dreq) : Prop :=
+  match d with
+  | DRead _ off cnt => off + cnt < two64 /\ off < two63N
+  | DWrite _ off _ data => N.of_nat (length data) <= ts /\ off + N.of_nat (length data) < two63N
+  | DTrunc _ sz => sz < two63N
+  end.
+Definition spec_next (f : bfile) (d : dreq) : bfile :=
+  match d with
+  | DRead _ _ _ => f
+  | DWrite _ off _ data => spec_write f off data (N.of_nat (length data))
+  | DTrunc _ sz => spec_trunc f sz
+  end.
+(* what the reply must be *)
+Definition spec_reply (ts : N) (f : bfile) (d : dreq) (o : obs) : Prop :=
+  ob_rpc o = 0 /\ ob_status o = 0 /\
+  match d with
+  | DRead _ off cnt =>
+      let count := if bf_size f <=? off then 0 else N.min (N.min cnt ts) (bf_size f - off) in
+      ob_nums o = [count] /\ ob_bytes o = spec_read f off count /\ ob_eof o = (bf_size f <=? off + count)
+  | DWrite _ _ _ data => ob_nums o = [N.of_nat (length data); 2]
+  | DTrunc _ _ => True
+  end.
+
+Lemma Abs_upd3 s s' m p o f' g1 g2 g3 :
+  keeps_shape g1 -> keeps_shape g2 -> keeps_shape g3 ->
+  fs s' = fs_upd (fs_upd (fs_upd (fs s) p g1) p g2) p g3 ->
+  Abs s m -> plain_file (fs s) p o -> bf_eq (file_of (g3 (g2 (g1 o)))) f' -> Abs s' (supd m p f').
+Proof.
+  intros K1 K2 K3 E A [P K] B q f. unfold supd. destruct (path_eqb q p) eqn:Q.
+  - intros [= <-]. apply path_eqb_eq in Q. subst q. exists (g3 (g2 (g1 o))). split; [|exact B].
+    split.
+    + rewrite E. pose proof (plain_upd _ _ _ p g3 K3 (plain_upd _ _ _ p g2 K2 (plain_upd _ _ _ p g1 K1 P))) as X.
+      rewrite !path_eqb_refl in X. exact X.
+    + destruct (K3 (g2 (g1 o))) as [-> _]. destruct (K2 (g1 o)) as [-> _]. destruct (K1 o) as [-> _]. exact K.
+  - intros H. destruct (A q f H) as (oq & [Pq Kq] & Bq). exists oq. split; [|exact Bq]. split; [|exact Kq].
+    rewrite E. pose proof (plain_upd _ _ _ p g3 K3 (plain_upd _ _ _ p g2 K2 (plain_upd _ _ _ p g1 K1 Pq))) as X.
+    rewrite !Q in X. exact X.
+Qed.
+
+Lemma Abs_upd1 s s' m p o f' g :
+  keeps_shape g -> fs s' = fs_upd (fs s) p g ->
+  Abs s m -> plain_file (fs s) p o -> bf_eq (file_of (g o)) f' -> Abs s' (supd m p f').
+Proof.
+  intros K1 E A [P K] B q f. unfold supd. destruct (path_eqb q p) eqn:Q.
+  - intros [= <-]. apply path_eqb_eq in Q. subst q. exists (g o). split; [|exact B]. split.
+    + rewrite E. pose proof (plain_upd _ _ _ p g K1 P) as X. rewrite path_eqb_refl in X. exact X.
+    + destruct (K1 o) as [-> _]. exact K.
+  - intros H. destruct (A q f H) as (oq & [Pq Kq] & Bq). exists oq. split; [|exact Bq]. split; [|exact Kq].
+    rewrite E. pose proof (plain_upd _ _ _ p g K1 Pq) as X. rewrite Q in X. exact X.
+Qed.
+Lemma Abs_same s s' m p f : fs s' = fs s -> Abs s m -> m p = Some f -> Abs s' (supd m p f).
+Proof.
+  intros E A H q g. unfold supd. rewrite E. destruct (path_eqb q p) eqn:Q; [|apply A].
+  apply path_eqb_eq in Q. subst q. intros [= <-]. apply A. exact H.
+Qed.
+
+Lemma spec_write_ext f g off data n : bf_eq f g -> bf_eq (spec_write f off data n) (spec_write g off data n).
+Proof.
+  intros [A B]. split; cbn [spec_write bf_size bf_at]; [rewrite A; reflexivity|].
+  intros i. rewrite B. reflexivity.
+Qed.
+Lemma spec_trunc_ext f g sz : bf_eq f g -> bf_eq (spec_trunc f sz) (spec_trunc g sz).
+Proof. intros [A B]. split; [reflexivity|]. intros i. cbn [spec_trunc bf_at]. rewrite B. reflexivity. Qed.
+Lemma written_file o off data t t2 : o_kind o = KFile ->
+  bf_eq (file_of (mtime_f t2 (sync_f (written o off data t)))) (spec_write (file_of o) off data (N.of_nat (length data))).
+Proof.
+  intros K. assert (K1 : o_kind (written o off data t) = KFile) by exact K.
+  unfold sync_f. rewrite K1. unfold file_of, mtime_f, sync_obj, written. cbn [o_size o_data set_meta set_data].
+  rewrite N2Z.id. apply (sd_write_spec (o_data o) (o_size o) off data).
+Qed.
+
+Lemma data_step_refines s c m d p f :
+  Good s -> Abs s m -> get (hm s) (dreq_handle d) = Some p -> m p = Some f -> dreq_valid (tsize (conf s)) d ->
+  let r := step s c (req_of d) in
+  spec_reply (tsize (conf s)) f d (snd r) /\ Abs (fst r) (supd m p (spec_next f d)) /\ Good (fst r) /\ Keep s (fst r).
+Proof.
+  intros G A Hh Hm V. cbv zeta.
+  destruct (lookup_node_good s _ p G Hh) as (na & L).
+  destruct (A p f Hm) as (o & PK & B).
+  assert (Kc : Keep s (clear_log s)) by (apply Keep_same; reflexivity).
+  destruct G as (ND & Hro & Hmax & Hn).
+  destruct d as [h off cnt|h off st data|h sz]; cbn [req_of dreq_handle dreq_valid spec_next] in *.
+  - (* READ *)
+    rewrite step_read. destruct V as [V1 V2].
+    pose proof (handle_read_ok (clear_log s) h p na o off cnt L PK V1 V2) as R. cbv zeta in R.
+    destruct R as (R1 & R2 & R3 & R4 & R5 & R6f & _).
+    pose proof (handle_read_keep (clear_log s) h off cnt) as K.
+    destruct B as [Bs Bb]. cbn [file_of bf_size] in Bs.
+    splits.
+    + unfold spec_reply. splits; auto; unfold read_count in *; cbn [conf clear_log] in *; rewrite <- Bs.
+      * exact R3.
+      * rewrite R4. apply spec_read_ext. split; [exact Bs|exact Bb].
+      * exact R5.
+    + apply (Abs_same s); [exact R6f|exact A|exact Hm].
+    + apply (Good_keep s); [unfold Good; auto|apply Keep_trans with (clear_log s); [exact Kc|exact K]|]. rewrite R6f. exact ND.
+    + apply Keep_trans with (clear_log s); [exact Kc|exact K].
+  - (* WRITE *)
+    rewrite step_write. destruct V as [V1 V2].
+    assert (NF : no_fbig_write (clear_log s) off (N.of_nat (length data))) by (left; exact Hmax).
+    destruct (handle_write_eq (clear_log s) h p na o off _ st data L PK ND Hro eq_refl V1 V2 NF) as (s' & a & prea & E & Ef).
+    pose proof (handle_write_keep (clear_log s) h off (N.of_nat (length data)) st data) as K.
+    rewrite E in *. cbn [fst snd] in *. cbn [fs now clear_log] in Ef.
+    splits.
+    + unfold spec_reply. cbn. auto.
+    + eapply (Abs_upd3 s s' m p o); [| | |exact Ef|exact A|exact PK|].
+      * intros x; split; reflexivity.
+      * apply keeps_shape_sync.
+      * intros x; split; reflexivity.
+      * eapply bf_eq_trans; [apply written_file; apply PK|apply spec_write_ext; exact B].
+    + apply (Good_keep s); [unfold Good; auto|apply Keep_trans with (clear_log s); [exact Kc|exact K]|]. rewrite Ef.
+      repeat apply nodup_keys_upd. exact ND.
+    + apply Keep_trans with (clear_log s); [exact Kc|exact K].
+  - (* SETATTR(size) *)
+    rewrite step_setattr.
+    assert (SO : size_only (size_sattr sz) sz) by (unfold size_only; cbn; repeat split; reflexivity).
+    assert (NF : no_fbig_size (clear_log s) sz) by (left; exact Hmax).
+    destruct (handle_setattr_size_eq (clear_log s) c h p na o _ sz L PK Hro SO V NF) as (s' & a & prea & E & Ef).
+    pose proof (handle_setattr_keep (clear_log s) c h (size_sattr sz) None) as K.
+    rewrite E in *. cbn [fst snd] in *. cbn [fs now clear_log] in Ef.
+    splits.
+    + unfold spec_reply. cbn. auto.
+    + eapply (Abs_upd1 s s' m p o); [|exact Ef|exact A|exact PK|].
+      * intros x; split; reflexivity.
+      * eapply bf_eq_trans; [apply (sd_trunc_spec (o_data o) (o_size o) sz)|apply spec_trunc_ext; exact B].
+    + apply (Good_keep s); [unfold Good; auto|apply Keep_trans with (clear_log s); [exact Kc|exact K]|]. rewrite Ef.
+      apply nodup_keys_upd. exact ND.
+    + apply Keep_trans with (clear_log s); [exact Kc|exact K].
+Qed.
+
+(* ---------- histories ---------- *)
+Record dstep := { d_adv : N; d_cred : cred; d_req : dreq }.
+Definition hstep_of (x : dstep) : hstep := {| hs_adv := d_adv x; hs_cred := d_cred x; hs_req := req_of (d_req x) |}.
+(* run the model and the specification side by side: every reply is the specified one and the abstraction holds
+   after every step ([hp]: the path a handle denotes; [ts]: the transfer size) *)
+Fixpoint refines (ts : N) (hp : N -> option path) (s : srv) (m : sfiles) (l : list dstep) : Prop :=
+  match l with
+  | [] => True
+  | x :: r =>
+    match hp (dreq_handle (d_req x)) with
+    | Some p =>
+      match m p with
+      | Some f =>
+        let so := hrun1 s (hstep_of x) in
+        let m' := supd m p (spec_next f (d_req x)) in
+        spec_reply ts f (d_req x) (snd so) /\ Abs (fst so) m' /\ refines ts hp (fst so) m' r
+      | None => False
+      end
+    | None => False
+    end
+  end.
+(* the histories covered: valid inputs on handles of files the specification state knows *)
+Definition covered (ts : N) (hp : N -> option path) (m : sfiles) (l : list dstep) : Prop :=
+  forall x, In x l -> dreq_valid ts (d_req x) /\ exists p, hp (dreq_handle (d_req x)) = Some p /\ m p <> None.
+
+Lemma covered_supd ts hp m l p f : covered ts hp m l -> covered ts hp (supd m p f) l.
+Proof.
+  intros C x Hx. destruct (C x Hx) as (V & q & A & B). split; [exact V|]. exists q. split; [exact A|].
+  unfold supd. destruct (path_eqb q p); [discriminate|exact B].
+Qed.
+
+Lemma history_refines : forall l s m,
+  Good s -> Abs s m -> covered (tsize (conf s)) (get (hm s)) m l -> refines (tsize (conf s)) (get (hm s)) s m l.
+Proof.
+  induction l as [|x r IH]; intros s m G A C; [exact I|].
+  cbn [refines]. destruct (C x (or_introl eq_refl)) as (V & p & Hp & Hm). rewrite Hp.
+  destruct (m p) as [f|] eqn:Ef; [|congruence]. cbv zeta.
+  unfold hrun1. set (s0 := with_now s (now s + hs_adv (hstep_of x))).
+  assert (G0 : Good s0) by exact G. assert (A0 : Abs s0 m) by exact A.
+  pose proof (data_step_refines s0 (d_cred x) m (d_req x) p f G0 A0 Hp Ef V) as (R1 & R2 & R3 & (K1 & K2 & _)).
+  cbn [hstep_of hs_cred hs_req]. split; [exact R1|]. split; [exact R2|].
+  change (hm s0) with (hm s) in K1. change (conf s0) with (conf s) in K2.
+  rewrite <- K1, <- K2. apply IH; [exact R3|exact R2|]. rewrite K1, K2.
+  apply covered_supd. intros y Hy. apply C. right. exact Hy.
+Qed.
+
+(* an executable check of the handle/node part of [Good], for concrete states *)
+Lemma assocH_in {P} h (l : list (N * P)) p : assocH h l = Some p -> In (h, p) l.
+Proof.
+  induction l as [|[k q] r IH]; cbn [assocH]; [discriminate|].
+  destruct (k =? h) eqn:E; [|intros H; right; apply IH; exact H].
+  apply N.eqb_eq in E. intros [= ->]. left. congruence.
+Qed.
+Lemma live_check s :
+  forallb (fun e => match node_get s (fst e) with Some _ => true | None => false end) (handles (hm s)) = true ->
+  forall h, get (hm s) h <> None -> node_get s h <> None.
+Proof.
+  intros H h G. unfold get in G. destruct (assocH h (handles (hm s))) as [p|] eqn:E; [|congruence].
+  apply assocH_in in E. rewrite forallb_forall in H. specialize (H _ E). cbn [fst] in H.
+  destruct (node_get s h); [discriminate|discriminate].
 Qed.
